@@ -68,9 +68,17 @@ def once(R):
         q = WS + '.' + name
         f = R.func(q)
         g = R.cfg(q)
-        sites = send_sites(R, g)
+        from .common import counting_nodes
+        cn, mixed = counting_nodes(R, g, [SEND, SENDC])
+        sites = [(n, c) for (n, c, k) in cn]
         snodes = [n for (n, _) in sites]
-        need(snodes, '%s: no session.send call found' % q)
+        for (mn_, mc_, hq) in mixed:
+            R.ob('C03.once', '%s: helper %s sends exactly once' % (name, hq.rsplit('.', 1)[1]), False,
+                 'the helper %s, called from %s, does not send exactly one frame on each of its paths' % (hq, name),
+                 func=f, node=mc_)
+        need(snodes or mixed, '%s: no session.send call found' % q)
+        if not snodes:
+            continue
         ok1 = all_paths_pass(g, [g.entry], snodes, [g.exit])
         R.ob('C03.once', '%s: a send on every normal path' % name, ok1,
              'a path returns normally without sending a frame', func=f, node=f.node, construct=name + ': path without send')
@@ -662,56 +670,66 @@ def private(R):
 
 # -------------------------------------------------------------------------------------------- rsv1gate
 def rsv1gate(R, RID='C03.rsv1gate'):
-    sites = R.types.callers.get(SENDC, [])
-    seen = set()
+    from .common import sites_through_helpers, lift_arg, facts, g_rd
     n_sites = 0
-    for (c, call, t) in sites:
-        if (c.func.qual, id(call)) in seen:
-            continue
-        seen.add((c.func.qual, id(call)))
-        if c.recv is not None and c.func.cls is not None and c.recv != c.func.cls.qual:
-            continue
-        g = R.cfg(c.func.qual, c.recv)
-        rd = ReachingDefs(g)
-        for n in g.live_nodes():
-            if call in n.calls:
-                n_sites += 1
-                gs = guards_of(g, n)
-                lits = {(t_, p) for (t_, p, _) in gs}
-                cparam = ('compress', True) in lits and 'compress' in c.func.params
-                state = ('self.state.compression', True) in lits
-                R.ob(RID, '%s: compressed send gated' % c.func.name, cparam and state,
-                     'send_compressed reachable without `compress and self.state.compression` (guards %s)' % sorted(lits),
-                     func=c.func, node=call)
-                # the payload sent compressed is the output of compression.compress(<payload>)
-                o, on = rd.origin(n, call.args[1])
-                okc = isinstance(o, ast.Call) and R.types.resolves_to(o, g.ctx, 'compression.Deflate.compress')
-                R.ob(RID, '%s: RSV1 payload is compress() output' % c.func.name, okc,
-                     'send_compressed payload is %s' % U(o), func=c.func, node=call)
-    need(n_sites >= 2, 'fewer than 2 send_compressed call sites')
-    # whatever went through the shared compressor must go out as a compressed frame on every path
+    reached = set()
     for name in ('send_text', 'send_binary'):
         q = WS + '.' + name
-        g = R.cfg(q)
-        comp = calls_to(R, g, 'compression.Deflate.compress')
+        f = R.func(q)
+        want_op = {'send_text': 1, 'send_binary': 2}[name]
+        csites = sites_through_helpers(R, q, WS, lambda c, g: R.types.resolves_to(c, g.ctx, SENDC))
+        psites = sites_through_helpers(R, q, WS, lambda c, g: R.types.resolves_to(c, g.ctx, SEND))
+        for (g, n, call, chain) in csites:
+            n_sites += 1
+            reached.add(id(call))
+            rd = g_rd(g)
+            fx = facts(R, g, n)
+            # a truthy test of a name that is (through the helper chain) the public method's `compress` parameter
+            cparam = False
+            for (t_, p_) in fx:
+                if p_ and t_.isidentifier():
+                    lg, ln, le = lift_arg(R, g, n, ast.Name(id=t_, ctx=ast.Load()), chain)
+                    if isinstance(le, ast.Name) and le.id == 'compress' and lg.ctx.func.qual == q and \
+                            g_rd(lg).defs_at(ln, 'compress') == {lg.entry}:
+                        cparam = True
+            state = ('self.state.compression', True) in fx
+            where = g.ctx.func.name
+            R.ob(RID, '%s: compressed send gated (%s)' % (name, where), cparam and state,
+                 'send_compressed reachable without `compress and self.state.compression` (facts %s)' % sorted(
+                     t_ for (t_, p_) in fx if p_)[:6], func=g.ctx.func, node=call)
+            # the payload sent compressed is the output of compression.compress(<payload>)
+            o, on = rd.origin(n, call.args[1])
+            okc = isinstance(o, ast.Call) and R.types.resolves_to(o, g.ctx, 'compression.Deflate.compress')
+            R.ob(RID, '%s: RSV1 payload is compress() output (%s)' % (name, where), okc,
+                 'send_compressed payload is %s' % U(o), func=g.ctx.func, node=call)
+        # opcode parity between the two arms (lifted through helper parameters)
+        ops = set()
+        for (g, n, call, chain) in csites + psites:
+            lg, ln, le = lift_arg(R, g, n, call.args[0], chain)
+            ops.add(fold(R, le, lg.ctx))
+        R.ob(RID, '%s: both arms use one opcode' % name, ops == {want_op}, 'opcodes used: %s' % sorted(map(str, ops)), func=q,
+             node=f.node, construct=name + ' opcodes')
+    need(n_sites >= 2, 'fewer than 2 send_compressed call sites reachable from send_text / send_binary')
+    # every send_compressed call in the package is one of those (no other producer of RSV1 frames)
+    other = [c_.func.qual for (c_, call, t) in R.types.callers.get(SENDC, []) if id(call) not in reached]
+    R.ob(RID, 'no other producer of compressed frames', not other, 'send_compressed also called from %s' % sorted(set(other)),
+         func=SENDC, node=None, construct='other send_compressed callers %s' % sorted(set(other)))
+    # whatever went through the shared compressor must go out as a compressed frame on every path
+    seen = set()
+    for (c_, call, t) in R.types.callers.get('compression.Deflate.compress', []):
+        if (c_.func.qual, id(call)) in seen or (c_.func.cls is not None and c_.recv != c_.func.cls.qual):
+            continue
+        seen.add((c_.func.qual, id(call)))
+        g = R.cfg(c_.func.qual, c_.recv)
+        comp = [(n, c) for n in g.live_nodes() for c in n.calls if c is call]
         sc = [n for (n, c) in calls_to(R, g, SENDC)]
         plain = [n for (n, c) in calls_to(R, g, SEND)]
         for (cn, cc) in comp:
             ok = all_paths_pass(g, normal_succs(cn), sc, [g.exit], skip_edge=nx) and \
                 not any(p in g.succ_reach(cn, skip_edge=nx) for p in plain)
-            R.ob(RID, '%s: compressor output is always sent compressed' % name, ok,
+            R.ob(RID, '%s: compressor output is always sent compressed' % c_.func.name, ok,
                  'after compress() has updated the shared deflate context a path sends the message uncompressed '
-                 '(or not at all): the peer\'s inflate context drifts', func=q, node=cc)
-    # uncompressed arm sends the original payload with plain send: opcode parity between the two arms
-    for name in ('send_text', 'send_binary'):
-        q = WS + '.' + name
-        g = R.cfg(q)
-        ops = set()
-        for (n, call) in send_sites(R, g):
-            ops.add(fold(R, call.args[0], g.ctx))
-        R.ob(RID, '%s: both arms use one opcode' % name, len(ops) == 1 and
-             ops == {{'send_text': 1, 'send_binary': 2}[name]}, 'opcodes used: %s' % sorted(ops), func=q,
-             node=R.func(q).node, construct=name + ' opcodes')
+                 '(or not at all): the peer\'s inflate context drifts', func=c_.func, node=cc)
 
 
 # ---------------------------------------------------------------------------------------------- closep
